@@ -103,7 +103,7 @@ func isConstNilV(v ssa.Value) bool {
 }
 
 func c10(c *core.Ctx, r *core.Report) {
-	r.Explain("R10.identity: PopulateGraphFromSummary passes the range key and element of Args (resp. Rets) unchanged as (src, dest) to addParamEdgeByPos (resp. (src, pos) to addReturnEdgeByPos); inside those, the forward-store owner depends only on the src position and the edge target only on the dest/pos position (SSA backward slices to the parameters). R10.bound: in the by-position writers (helpers inlined with their calling context) a comparison of a listed position with len(E) uses the table the position indexes: parameter positions against Parent.Params, result positions against the result nodes, never a result position against the parameter count. R10.order: in ResolveCallee the interface-contract lookup precedes call-graph and by-type resolution and returns early; in LoadExternalContractSummary the interface lookup precedes the function lookup; in BuildGraph contract enforcement precedes linking. R10.nobody: every call that runs the intra-procedural analysis on a summary (RunIntraProcedural, directly or through a one-line wrapper) is dominated by a branch establishing that the summary is not Constructed; contract summaries are marked Constructed by PopulateGraphFromSummary; ShouldBuildSummary excludes functions with external contracts.")
+	r.Explain("R10.identity: PopulateGraphFromSummary passes the range key and element of Args (resp. Rets) unchanged as (src, dest) to addParamEdgeByPos (resp. (src, pos) to addReturnEdgeByPos); inside those, the forward-store owner depends only on the src position and the edge target only on the dest/pos position (SSA backward slices to the parameters). R10.bound: in the by-position writers (helpers inlined with their calling context) a comparison of a listed position with len(E) uses the table the position indexes: parameter positions against Parent.Params, result positions against the result nodes, never a result position against the parameter count. R10.load: the list of loaded contracts is grow-only (no element of a []Contract is overwritten anywhere in analysis/dataflow; positive control embedded). R10.order: in ResolveCallee the interface-contract lookup precedes call-graph and by-type resolution and returns early; in LoadExternalContractSummary the interface lookup precedes the function lookup; in BuildGraph contract enforcement precedes linking. R10.nobody: every call that runs the intra-procedural analysis on a summary (RunIntraProcedural, directly or through a one-line wrapper) is dominated by a branch establishing that the summary is not Constructed; contract summaries are marked Constructed by PopulateGraphFromSummary; ShouldBuildSummary excludes functions with external contracts.")
 	r.NotDecided("the end-to-end effect for all specification matrices and call forms.")
 	// ---- R10.identity (AST)
 	if fd, p := c.Decl("analysis/dataflow", "SummaryGraph.PopulateGraphFromSummary"); fd != nil {
@@ -225,6 +225,8 @@ func c10(c *core.Ctx, r *core.Report) {
 		}
 	}
 	r.Floor("R10.identity", 4, "two loops + two writers")
+
+	c10load(c, r)
 
 	// ---- R10.order
 	orderRule := func(rel, fnName, key string, first func(ast.Node) bool, later func(ast.Node) bool, okMsg, failMsg string) {
